@@ -89,6 +89,68 @@ theorem LiveLog.step (p : Prog) (s s' : State) (I1 : Inv1 p s) (I2 : Inv2 p s) (
   | siteRead o i rs cs j k st se hb hc hk hr hcell => exact L
   | siteDone o i rs cs j k st se hb hc hk hr hcell => exact L
 
+/-- a dependency whose own call panicked has itself failed: the panic ends its body -/
+def PanStops (log : List Event) : Prop :=
+  ∀ c reached code msgs k, Event.pan c reached code msgs ∈ log → c.owner = .key k → ∃ f, Event.stop k (some f) ∈ log
+
+theorem PanStops.step (p : Prog) (s s' : State) (P : PanStops s.log) (hm : Move p s s') : PanStops s'.log := by
+  -- every move only prepends events; the two that prepend a `pan` prepend the owner's failing `stop` with it
+  have mono : ∀ es : List Event, (∀ c reached code msgs, Event.pan c reached code msgs ∉ es) → PanStops (es ++ s.log) := by
+    intro es hes c reached code msgs k hmem hown
+    rcases List.mem_append.mp hmem with h | h
+    · exact absurd h (hes c reached code msgs)
+    · obtain ⟨f, hf⟩ := P c reached code msgs k h hown
+      exact ⟨f, List.mem_append_right _ hf⟩
+  have withPan : ∀ (o : Owner) (e : Event) (fs : List (Int × String)), (∃ i reached code msgs, e = .pan ⟨o, i⟩ reached code msgs) →
+      PanStops (ended (emit s e) o (panicOut fs)).log := by
+    intro o e fs ⟨i, reached, code, msgs, he⟩ c reached' code' msgs' k hmem hown
+    rw [ended_log] at hmem ⊢
+    cases o with
+    | root r =>
+      simp only [emit_log] at hmem ⊢
+      rcases List.mem_cons.mp hmem with h | h
+      · subst he; cases h; cases hown
+      · obtain ⟨f, hf⟩ := P c reached' code' msgs' k h hown
+        exact ⟨f, List.mem_cons_of_mem _ hf⟩
+    | key k0 =>
+      simp only [emit_log] at hmem ⊢
+      rcases List.mem_cons.mp hmem with h | h
+      · cases h
+      · rcases List.mem_cons.mp h with h | h
+        · subst he; cases h; cases hown
+          exact ⟨_, List.mem_cons_self⟩
+        · obtain ⟨f, hf⟩ := P c reached' code' msgs' k h hown
+          exact ⟨f, List.mem_cons_of_mem _ (List.mem_cons_of_mem _ hf)⟩
+  cases hm with
+  | finish o i hb hc =>
+    rw [ended_log]
+    cases o with
+    | root r => exact P
+    | key k => exact mono [_] (by intro c r cd m h; simp at h)
+  | enterSer o i cs hb hc hser => exact mono [_] (by intro c r cd m h; simp at h)
+  | enterPar o i cs hb hc hser =>
+    simp only [emits_log, setBody_log]
+    apply mono
+    intro c r cd m h
+    rcases List.mem_append.mp h with h1 | h1
+    · obtain ⟨j', k', e1⟩ := mem_reqEvents h1; cases e1
+    · simp at h1
+  | retPar o i rs cs hb hc hser hlen hfin hfs => exact mono [_] (by intro c r cd m h; simp at h)
+  | panPar o i rs cs hb hc hser hlen hfin hfs => exact withPan o _ _ ⟨i, _, _, _, rfl⟩
+  | serNext o i rs cs k hb hc hser hl hk => exact mono [_] (by intro c r cd m h; simp at h)
+  | serRet o i rs cs hb hc hser hl hk => exact mono [_] (by intro c r cd m h; simp at h)
+  | serPan o i rs cs f hb hc hser hl => exact withPan o _ [f] ⟨i, _, _, _, rfl⟩
+  | siteWin o i rs cs j k hb hc hk hr => exact mono [_] (by intro c r cd m h; simp at h)
+  | siteBlock o i rs cs j k hb hc hk hr hcell => exact P
+  | siteRead o i rs cs j k st se hb hc hk hr hcell => exact P
+  | siteDone o i rs cs j k st se hb hc hk hr hcell => exact P
+
+theorem reach_panStops (p : Prog) (roots : List Nat) (sched : List Agent) : PanStops (reach p roots sched).log := by
+  unfold reach
+  apply run_invariant p (fun s => PanStops s.log)
+  · intro s s' h hm; exact PanStops.step p s s' h hm
+  · intro c reached code msgs k h; simp [State.init] at h
+
 theorem reach_live (p : Prog) (roots : List Nat) (sched : List Agent) : LiveLog (reach p roots sched).log := by
   have h : Inv1 p (reach p roots sched) ∧ Inv2 p (reach p roots sched) ∧ LiveLog (reach p roots sched).log := by
     unfold reach
